@@ -18,7 +18,7 @@
 (* D = KnownDefects: named deviations of the code from the intended design.                    *)
 EXTENDS Unicode, Gen_Names
 CONSTANT KnownDefects
-WalkerDefectNames == {"walker-legacy-void-names", "etree-clark-empty-part"}
+WalkerDefectNames == {"walker-legacy-void-names", "etree-clark-empty-part", "etree-clark-raw-name"}
 
 -----------------------------------------------------------------------------
 \* ---------- void elements ----------
